@@ -24,11 +24,9 @@ Theorem C11_call_sites_with_sufficient_guards :
   accepted (fun _ => [FAILED]) = true /\ accepted (fun _ => [GATHERING]) = true.
 Proof. exact sites_always_legal. Qed.
 
-(** the one site whose guard alone is not enough: legal iff the component owning an in-progress nominated
-    pair is CONNECTING, CONNECTED or READY (an invariant of the agent, explored by the simulator) *)
-Theorem C11_nominated_success_site_partial : forall cur,
-  (match requests cur (site_nominated_success cur) with Some _ => true | None => false end) =
-  (cs_eqb cur CONNECTING || cs_eqb cur CONNECTED || cs_eqb cur READY).
+(** the nominated-success site of conncheck.c: its guard alone used not to be enough (FAILED -> CONNECTED would abort; found on the real
+    code by the C12 API programs and repaired by fix 363c416); it is now legal whatever state the component is in *)
+Theorem C11_nominated_success_site_legal : accepted site_nominated_success = true.
 Proof. exact nominated_success_site. Qed.
 
 Theorem C11_call_site_inventory : map (fun x => (fst (fst x), snd x)) call_sites = expected_sites.
